@@ -33,6 +33,10 @@ type Case struct {
 	IntervalNs  int64   `json:"interval_ns,omitempty"` // 0 = leave the field unset (documented default 30 s)
 	Concurrency int     `json:"concurrency,omitempty"` // 0 = unset (documented default 32)
 	Rounds      [][]Act `json:"rounds,omitempty"`
+	// Excluded: some probes answer at or after the deadline (latency >= timeout), which the theorems exclude by
+	// hypothesis; whether such a probe counts as a success is a race between the deadline and the answer, so only
+	// member-only and unchanged-during-round are asserted and the model is not consulted.
+	Excluded bool `json:"excluded,omitempty"`
 
 	// rr / random
 	Selects int `json:"selects,omitempty"`
@@ -314,6 +318,17 @@ func genGroups(r *common.Rng, search bool) Case {
 			row[i] = a
 		}
 		c.Rounds = append(c.Rounds, row)
+	}
+	if r.Chance(1, 25) {
+		c.Excluded = true
+		c.IntervalNs = 2*T*int64(c.N) + 7
+		for _, row := range c.Rounds {
+			for i := range row {
+				if row[i].OK && r.Chance(1, 3) {
+					row[i].Lat = common.Pick(r, []int64{T, T + 1, 2 * T})
+				}
+			}
+		}
 	}
 	normalize(&c)
 	return c
